@@ -3,12 +3,12 @@
 #define VSTUB_H
 #include "vcommon.h"
 #ifdef VERIF_CBMC
-extern int g_fail;            /* failing events: a stub callee failing, or the error setter being called */
+extern int g_fail;            /* store attempts into a non-NULL slot (a callee invoked with a NULL slot reports nothing) */
 extern int g_nerr;            /* errors actually stored into a caller-provided slot */
 extern xrl_error g_err_obj;   /* the stored error object (one is enough: a second store is an assertion failure) */
 static inline void stub_set(xrl_error **err, xrl_error_code code) {
-  g_fail++;
   if (err) {
+    g_fail++;
     __CPROVER_assert(*err == NULL, "no error is stored over an existing one");
     if (*err == NULL) { g_err_obj.code = code; g_err_obj.message = "stub"; *err = &g_err_obj; g_nerr++; }
   }
@@ -26,7 +26,7 @@ static inline void stub_fail(xrl_error **err) {
 #endif
 #define GHOST_RESET() do { g_fail = 0; g_nerr = 0; } while (0)
 #define NO_ERROR(error) (ERR_NONE(error) && g_fail == 0)
-#define ONE_ERROR(error) (g_fail == 1 && ((error) == NULL || *(error) != NULL))
+#define ONE_ERROR(error) ((error) == NULL ? g_fail == 0 : (g_fail == 1 && *(error) != NULL))
 #else
 /* native: "exactly one error" is observed through the caller's slot */
 #define GHOST_RESET()
